@@ -31,7 +31,7 @@ ASSUMPTIONS = [
 REQUIRED = {'programs': 2000, 'agree.value': 1500, 'agree.error': 20, 'construct.lambda': 500, 'construct.let': 300,
             'construct.with': 50, 'construct.unpack': 50, 'construct.def': 100, 'construct.member-projection': 100,
             'nest.lambda-in-lambda': 50, 'nest.let-in-lambda': 50, 'nest.lambda-in-let': 50, 'nest.shadowing': 100,
-            'nest.closure-called-under-shadowing': 20, 'nest.unbound-variable': 50,
+            'nest.closure-called-under-shadowing': 20, 'nest.unbound-variable': 50, 'pattern.*': 10,
             'reach.Lambda.convert': 1000, 'reach.get_data': 1000, 'reach.let': 100, 'reach.def_': 50,
             'reach.send_context': 100, 'reach.collection_attribution': 50}
 
@@ -465,10 +465,52 @@ FIXED = [
 ]
 
 
+def pattern_programs(rng):
+    """parametrised programs for the invocation-scope rules: every call of a lambda / def'd function gets its own
+    fresh parameter scope, whatever was passed to earlier calls, also under recursion and lazy consumption"""
+    L, V, B, C = me.Lit, me.Var, me.Bin, me.Call
+    a, b, c, k = (rng.choice([1, 2, 3, 5, 7]) for _ in range(4))
+    l1 = me.ListE([L(rng.choice([1, 2, 3])) for _ in range(rng.choice((1, 2, 3)))])
+    l2 = me.ListE([L(rng.choice([4, 5, 6])) for _ in range(rng.choice((1, 2)))])
+    op = rng.choice(['+', '*', '-'])
+    n = rng.choice((0, 1, 3, 4))
+    out = []
+    # fewer arguments on a later call: missing parameters are null, not leftovers
+    out.append(('multi-arity', me.Def('f', me.ListE([V('$1'), V('$2')]), me.ListE([C('f', [L(a), L(b)]), C('f', [L(c)])]))))
+    out.append(('multi-arity-rev', me.Def('f', me.ListE([V('$1'), V('$2'), V('$')]),
+                                          me.ListE([C('f', [L(c)]), C('f', [L(a), L(b)]), C('f', [])]))))
+    # named lambda arguments do not survive to the next call
+    out.append(('named-arg', me.Def('f', B('+', me.Coalesce([V('$k'), L(0)]), V('$1')),
+                                    me.ListE([C('f', [L(a)], kwargs=[('k', L(k))]), C('f', [L(b)])]))))
+    # recursion: `$` read after the recursive call still belongs to this invocation (both operand orders)
+    rec1 = me.Switch([(B('<', V('$'), L(1)), L(k)), (L(True), B(op, C('r', [B('-', V('$'), L(1))]), V('$')))])
+    rec2 = me.Switch([(B('<', V('$'), L(1)), L(k)), (L(True), B(op, V('$'), C('r', [B('-', V('$'), L(1))])))])
+    out.append(('recursion-after', me.Def('r', rec1, C('r', [L(n)]))))
+    out.append(('recursion-before', me.Def('r', rec2, C('r', [L(n)]))))
+    out.append(('recursion-two-args', me.Def('r', me.Switch([(B('<', V('$1'), L(1)), V('$2')),
+                                                             (L(True), B('+', C('r', [B('-', V('$1'), L(1)), B('+', V('$2'), V('$1'))]), V('$1')))]),
+                                             C('r', [L(n), L(a)]))))
+    # lazily consumed closures over their own parameters: two invocations, results consumed afterwards
+    lazy_body = C('select', [me.Lam(B('+', V('$'), V('$o')))], recv=V('$1'))
+    out.append(('lazy-closure', me.Def('f', me.Let([], [('o', V('$2'))], lazy_body), me.ListE([C('f', [l1, L(a)]), C('f', [l2, L(b)])]))))
+    out.append(('lazy-closure-direct', me.Def('f', C('select', [me.Lam(B('+', V('$'), L(a)))], recv=V('$1')),
+                                              me.ListE([C('f', [l1]), C('f', [l2])]))))
+    out.append(('lazy-siblings', me.ListE([C('select', [me.Lam(B('*', V('$'), L(a)))], recv=l1),
+                                           C('select', [me.Lam(B('*', V('$'), L(b)))], recv=l1)])))
+    # a lambda invoked per element sees its own element even when an inner call rebinds `$`
+    out.append(('element-after-inner-call', C('toList', [], recv=C('select', [me.Lam(
+        B('+', C('sum', [L(0)], recv=C('toList', [], recv=C('select', [me.Lam(B('*', V('$'), L(2)))], recv=l2))), V('$')))], recv=l1))))
+    # with / let positional: `$` and `$1` are one variable, restored after the construct
+    out.append(('dollar-alias', me.ListE([me.With([L(a)], me.ListE([V('$'), V('$1')])), me.Let([L(b)], [], V('$')),
+                                          me.Coalesce([V('$2'), L(-1)])])))
+    return out
+
+
 def plan(tier, seed):
     thorough = tier == 'thorough'
     return [{'name': 'prog-%d' % p, 'kind': 'prog', 'count': 20000 if thorough else 1000, 'timeout': 3000}
-            for p in range(16)] + [{'name': 'fixed', 'kind': 'fixed'}]
+            for p in range(16)] + [{'name': 'fixed', 'kind': 'fixed'},
+                                   {'name': 'patterns', 'kind': 'patterns', 'count': 1500 if thorough else 150}]
 
 
 def run_shard(spec, rec):
@@ -486,6 +528,29 @@ def run_shard(spec, rec):
                 else:
                     rec.count('agree.value')
             return
+        if spec['kind'] == 'patterns':
+            rng = rng_for(spec['seed'], 'c04', spec['name'])
+            for i in range(spec['count']):
+                for name, prog in pattern_programs(rng):
+                    doc = gen_doc(rng)
+                    text = prog.text()
+                    try:
+                        want = ('value', me.evaluate(prog, doc))
+                    except me.ModelError as e:
+                        want = ('error', e.kind)
+                    got = mon.run(text, doc, {})
+                    rec.count('programs')
+                    rec.count('pattern.' + name)
+                    rec.case((text,), nontrivial=True)
+                    ok = got[0] == want[0] and (got[0] == 'error' or same(got[1], want[1]))
+                    rec.count(('agree.' + got[0]) if ok else 'disagree')
+                    if not ok:
+                        rec.violation('evaluation-differs-from-reference-interpreter:pattern:%s' % name,
+                                      '%s gives %r, the reference interpreter gives %r' % (text, got, want),
+                                      {'kind': 'patterns', 'shard': spec['name'], 'count': spec['count'], 'text': text})
+                if i % 50 == 0:
+                    rec.sample({'pattern': name, 'program': text})
+            return
         rng = rng_for(spec['seed'], 'c04', spec['name'])
         for i in range(spec['count']):
             r = one_program(mon, rec, rng, {'kind': 'prog', 'shard': spec['name'], 'count': spec['count']})
@@ -500,7 +565,7 @@ def replay(data, rec):
         run_shard({'name': 'fixed', 'kind': 'fixed', 'seed': rec.spec['seed'], 'tier': rec.spec['tier']}, rec)
         return
     print('C04 programs are regenerated from their seed; re-running shard %s' % data['shard'])
-    run_shard({'name': data['shard'], 'kind': 'prog', 'count': data['count'], 'seed': rec.spec['seed'],
+    run_shard({'name': data['shard'], 'kind': data['kind'], 'count': data['count'], 'seed': rec.spec['seed'],
                'tier': rec.spec['tier']}, rec)
     rec.violations = [v for v in rec.violations if v['replay'].get('text') == data.get('text')][:2] or rec.violations[:2]
 
